@@ -33,11 +33,16 @@ DATE_KINDS = ["first", "first", "interior", "interior", "last", "before", "after
 
 
 @st.composite
-def sim_changes(draw, spec, allow_bad=True):
+def sim_changes(draw, spec, allow_bad=True, reachable_only=True):
     n = draw(st.integers(1, 3))
     out, seen, cur = [], set(), spec
     for _ in range(n):
         e = draw(G.simple_edit(cur))
+        if reachable_only and e["obj"] not in S.spec_reachable(cur):
+            # a what-if on an object outside the system is not a meaningful simulation: fall back (by construction)
+            # to a numeric change on a reachable object
+            names = sorted(x for x in S.spec_reachable(cur) if S.quantity_inputs(cur["objs"][x]["cls"]))
+            e = draw(G.quantity_edit(cur, names=names))
         key = (e["obj"], E._attr_of(e))
         if key in seen:
             continue
